@@ -23,6 +23,7 @@ type pg struct {
 	st  []ent
 	alt []ent
 	sys bool // syscalls allowed (V lines); X lines stay inside the modelled opcode subset
+	calm bool // quick tier: values known to kill the process (cycle invisible to the detector handed to Native.Invoke: ~8 s per case) stay rare
 }
 
 func (g *pg) push(k byte, n int) { g.st = append(g.st, ent{k, n}) }
@@ -56,11 +57,11 @@ func (g *pg) boundary(n int) *big.Int {
 		return big.NewInt(0)
 	case 3, 4:
 		return big.NewInt(int64(n - 1))
-	case 5, 6:
+	case 5:
 		return big.NewInt(int64(n))
-	case 7:
+	case 6:
 		return big.NewInt(int64(n + 1))
-	case 8:
+	case 7, 8, 12, 13:
 		return big.NewInt(int64(r.Intn(n + 1)))
 	case 9:
 		return []*big.Int{big.NewInt(1023), big.NewInt(1024), big.NewInt(1025), big.NewInt(2047), big.NewInt(2048)}[r.Intn(5)]
@@ -580,6 +581,47 @@ func (g *pg) anyValue() {
 	}
 }
 
+// like anyValue, without the shapes whose BuildParamToNative is known not to return
+func (g *pg) tameValue() {
+	r := g.r
+	switch r.Intn(6) {
+	case 0:
+		g.somePrim()
+	case 1: // a = [a]: seen by the detector
+		g.a.pushI(0)
+		g.a.op([]byte{opNEWARRAY, opNEWSTRUCT}[r.Intn(2)], opDUP, opDUP, opAPPEND)
+		g.push('A', 1)
+	case 2: // a struct of fields: what wallets send
+		n := r.Intn(5)
+		for i := 0; i < n; i++ {
+			g.somePrim()
+		}
+		g.a.pushI(int64(n))
+		g.a.op(opPACK)
+		for i := 0; i < n; i++ {
+			g.pop()
+		}
+		g.push('A', n)
+	case 3: // DAG: x = [x_prev, x_prev]
+		n := []int{3, 9, 12}[r.Intn(3)]
+		g.a.pushI(0)
+		g.a.op(opNEWARRAY, opDUP)
+		g.a.pushI(7)
+		g.a.op(opAPPEND)
+		for i := 0; i < n; i++ {
+			g.a.op(opDUP)
+			g.a.pushI(2)
+			g.a.op(opPACK)
+		}
+		g.push('A', 2)
+	default:
+		g.newContainer()
+		for i := r.Intn(3); i > 0; i-- {
+			g.containerOp()
+		}
+	}
+}
+
 var syscallNames = []string{
 	"System.Runtime.Serialize", "System.Runtime.Deserialize", "System.Runtime.Notify", "System.Runtime.CheckWitness", "System.Runtime.Log",
 	"System.Runtime.GetTime", "System.Runtime.GetTrigger", "Ontology.Runtime.Base58ToAddress", "Ontology.Runtime.AddressToBase58",
@@ -652,7 +694,11 @@ func (g *pg) sysOp() {
 		g.push('?', -1)
 	case 4, 5, 6, 7: // Native.Invoke(args, method, address, version)
 		c := nativeNames[r.Intn(len(nativeNames))]
-		g.anyValue()
+		if g.calm && !r.Chance(2) {
+			g.tameValue()
+		} else {
+			g.anyValue()
+		}
 		g.a.pushBytes(g.someMethod(c))
 		if r.Chance(85) {
 			a := nativeAddrGen[c]
@@ -799,9 +845,9 @@ func genSerialized(r *hx.Rand) []byte {
 	return b
 }
 
-func genProg(r *hx.Rand, sys bool) []byte {
-	g := &pg{r: r, sys: sys}
-	n := 2 + r.Intn(14)
+func genProg(r *hx.Rand, sys bool, calm bool) []byte {
+	g := &pg{r: r, sys: sys, calm: calm}
+	n := 1 + r.Intn(9)
 	for i := 0; i < n; i++ {
 		k := r.Intn(100)
 		switch {
@@ -1090,7 +1136,7 @@ func genEvm(r *hx.Rand) string {
 			code = append(code, byte(r.U64()))
 		}
 	}
-	gas := []uint64{0, 21000, 53000, 60000, 100000, 1000000, 10000000}[r.Intn(7)]
+	gas := []uint64{0, 21000, 53000, 60000, 100000, 300000, 1000000}[r.Intn(7)]
 	k := "c"
 	if r.Chance(60) {
 		k = "r"
@@ -1105,9 +1151,9 @@ var gasChoices = []uint64{0, 1, 19999, 20000, 30000, 200000, 2000000, 30000000}
 func Gen(r *hx.Rand, tier string, i int) string {
 	switch k := r.Intn(100); {
 	case k < 45:
-		return fmt.Sprintf("X %d %s", r.Intn(8)/7, hx.Hex(genProg(r, false)))
+		return fmt.Sprintf("X %d %s", r.Intn(8)/7, hx.Hex(genProg(r, false, tier == "quick")))
 	case k < 75:
-		return fmt.Sprintf("V %d %s", gasChoices[2+r.Intn(len(gasChoices)-2)], hx.Hex(genProg(r, true)))
+		return fmt.Sprintf("V %d %s", gasChoices[2+r.Intn(len(gasChoices)-2)], hx.Hex(genProg(r, true, tier == "quick")))
 	case k < 95:
 		return genNative(r)
 	default:
